@@ -126,7 +126,11 @@ def checkFormula (what : String) (atoms : Array (List Seg)) (f : Array Bool → 
     else .fail what (some w)
 
 /-- operand validity as the properties' quantifier states it -/
-def validOperand (m : MPoly) : Verdict :=
+def validOperand (m0 : MPoly) : Verdict :=
+  -- an interior ring without coordinates, and a polygon consisting of such rings only, enclose nothing and
+  -- are valid input ("empty rings" in the quantifier of the properties): they are left out before the checks
+  let m : MPoly := (m0.map (fun p => { p with holes := p.holes.filter (fun r => !r.isEmpty) })).filter
+    (fun p => !(p.ext.isEmpty && p.holes.isEmpty))
   if !(allRings m).all simpleRing then .fail "ring not simple" none else
   if !ringsNonCrossing (allRings m) then .fail "rings cross or share a segment" none else
   let l := layout m #[]
